@@ -88,6 +88,30 @@ theorem unknown_crit_rejected_jwe (o : Oracle) :
     obtain ⟨⟨p, hp, hc⟩, hu, hr⟩ := jweParseJSON_crit o data m hm
     exact ⟨⟨p, hp, (critOK_iff _ _).1 hc⟩, hu, hr⟩
 
+theorem sharesName_false (a b : List (String × Wire)) :
+    sharesName a b = false ↔ ∀ kv ∈ a, Wire.lookup kv.1 b = none := by
+  simp only [sharesName, List.any_eq_false, Option.isSome_iff_ne_none, ne_eq, Decidable.not_not]
+
+/-- jwe.ParseJSON (general and flattened syntax, with or without a protected header) returns a
+    message only if no Header Parameter name — registered or unregistered — occurs in two of the
+    positions protected / shared unprotected / per-recipient (RFC 7516 §7.2.1): a message that
+    repeats a name is rejected (outcome ≠ ok), whatever the values. -/
+theorem jwe_duplicate_names_rejected (o : Oracle) (data : Bytes) (m : JweMsg)
+    (h : (jweParseJSON data).run o = .ok m) :
+    ∃ p u, m.prot = some p ∧ m.unprotected = some u ∧
+      (∀ kv ∈ u.raw, Wire.lookup kv.1 p.raw = none) ∧
+      ∀ r ∈ m.recipients, ∃ hd, r.header = some hd ∧
+        ∀ kv ∈ hd.raw, Wire.lookup kv.1 p.raw = none ∧ Wire.lookup kv.1 u.raw = none := by
+  obtain ⟨p, u, hp, hu, _, _, hpu, hr⟩ := jweParseJSON_ok o data m h
+  refine ⟨p, u, hp, hu, (sharesName_false _ _).1 hpu, ?_⟩
+  intro r hr'
+  obtain ⟨hd, h1, _, h3, h4⟩ := hr r hr'
+  exact ⟨hd, h1, fun kv hkv => ⟨(sharesName_false _ _).1 h3 kv hkv, (sharesName_false _ _).1 h4 kv hkv⟩⟩
+
+/-- the name test sees a repeated name whatever the two values are -/
+example : sharesName [("kid", .str "a"), ("x", .null)] [("alg", .str "dir"), ("kid", .num "1")] = true := rfl
+example : sharesName [("kid", .str "a")] [("alg", .str "dir"), ("enc", .str "A128GCM")] = false := rfl
+
 /-! ## round trip: decodeHeader ∘ encodeHeader -/
 
 theorem jws_fit : tablesFit jws.encRows jws.decSteps = true := by decide
@@ -149,7 +173,9 @@ theorem header_names_registered (o : Oracle) (h : Header) :
     h_i (all well-formed) re-parses — `jwsParseJSON (json.marshal (jwsMarshalJSON m))`,
     `jweParseJSON (json.marshal (jweMarshalJSON m))` — to a message whose headers, position by
     position, are `{ fill o h_i with raw := emitted object of h_i }`; compact: the protected
-    position only.  PROVED below: the protected position (the header text
+    position only.  A standards-conformant message carries each Header Parameter name in one
+    position only; jwe.ParseJSON now enforces this (`jwe_duplicate_names_rejected`), so the full
+    statement quantifies over headers with pairwise disjoint member names.  PROVED below: the protected position (the header text
     base64url(JSON(encodeHeader h)) that every serialisation carries reads back as the header) for
     both packages, and the complete JWS compact cycle Sign → Compact → ParseCompact.  The JSON
     placements of the unprotected / per-signature / per-recipient headers are covered by the
